@@ -134,3 +134,9 @@ mod tests {
         assert!(deps.get_output_as_string().is_empty());
     }
 }
+
+// Verification hook: harnesses live outside the repository (see MANIFEST.hooks of the verifier).
+#[cfg(kani)]
+pub(crate) mod verif_kani {
+    include!(concat!(env!("FINDUTILS_VERIF_DIR"), "/harness/m_printer.rs"));
+}
